@@ -45,6 +45,10 @@ var types = []string{"String", "Int", "Uint", "Float", "Time", "Bool", "Raw"}
 // collision pool: decimal prefix/suffix relations between tags are the rule
 var tagPool = []string{"1", "11", "146", "1146", "14", "46", "55", "100", "110", "43", "1461", "4", "6", "461", "114"}
 
+// long tags with the same prefix relations (a fixed-size scratch buffer for "tag=" truncates them; the truncated
+// form is then another tag of the same template)
+var tagPoolLong = []string{"1234567", "123456", "12345678", "123456789", "1234568", "100500", "1005001", "2147483647", "214748364", "10050011", "12345", "21474836470"}
+
 // forests returns all ordered forests with exactly/at most `budget` nodes and nesting depth <= depth.
 func forests(budget, depth int) [][]*node {
 	res := [][]*node{{}}
@@ -617,7 +621,7 @@ var typeOrders = [][]string{
 	{"Float", "Uint", "Time", "Raw", "Int", "Bool", "String"},
 }
 
-var framings = [][4]string{{"8", "9", "35", "10"}, {"1008", "1009", "1035", "1010"}}
+var framings = [][4]string{{"8", "9", "35", "10"}, {"1008", "1009", "1035", "1010"}, {"8", "9", "35", "10"}, {"10000008", "10000009", "10000035", "10000010"}}
 
 // templates enumerates work units: (body shape, type order, framing, header/trailer form).
 func templates(budget int, visit func(idx int, t *tmpl)) int {
@@ -644,7 +648,11 @@ func templates(budget int, visit func(idx int, t *tmpl)) int {
 			assign(t.Hdr, hpool, &hn, used, []string{"Int", "String", "String", "Int", "String"}, new(int))
 			tn := 0
 			assign(t.Trl, []string{"93", "89"}, &tn, used, []string{"Int", "String"}, new(int))
-			assign(t.Body, tagPool, &next, used, typs, &tix)
+			pool := tagPool
+			if (si+2*ti)%5 == 4 {
+				pool = tagPoolLong
+			}
+			assign(t.Body, pool, &next, used, typs, &tix)
 			t.Unit = idx
 			visit(idx, t)
 			idx++
